@@ -41,7 +41,7 @@ def signature(cls, mode, kernel):
     feats = kernel.get("features", [])
     if mode in ("opencl", "metal") and "atomic" in feats and (cls == "data-race" or cls in ("output-mismatch:out1", "output-mismatch:fout")):
         return "%s|atomic-not-atomic|mode=%s" % (PROP, mode)
-    if mode == "dpcpp" and "atomic-block" in feats and cls == "translation-does-not-compile":
+    if mode == "dpcpp" and ("atomic-block" in feats or "atomic-assign" in feats) and cls == "translation-does-not-compile":
         return "%s|atomic-block-does-not-compile|mode=dpcpp" % PROP
     if cls == "host-variable-not-passed-to-device-kernel":
         return "%s|host-variable-not-passed-to-device-kernel|mode=%s" % (PROP, mode)
